@@ -194,6 +194,21 @@ def fullStepUnpinsFirst (w : World) (r : StepResult) : Bool :=
     else true
   | _, _, _ => true
 
+/-- **C04 / C02** — while the workload's status is not consistent with its spec (`generation ≠ observedGeneration`: the
+    controller cannot tell which revision the pods run, the finder reports an empty `Workload`) a reconcile of a Rollout
+    that is not being deleted only waits: nothing is written to the BatchRelease, the workload or the network, the
+    status cursor stays where it is, and the request is requeued.  (An unreadable workload carries no revision label
+    key: clean-up tasks run in that window would "restore" nothing and still report completion.) -/
+def inconsistentWaits (w : World) (r : StepResult) : Bool :=
+  match w.wl with
+  | some wl =>
+    if ¬ wl.consistent ∧ ¬ w.ro.deleting then
+      r.w.br == w.br && r.w.net == w.net && r.w.wl == w.wl &&
+      (r.w.ro.sub.map fun s => (s.curIdx, s.state, s.finStep, s.canaryRev, s.stableRev)) == (w.ro.sub.map fun s => (s.curIdx, s.state, s.finStep, s.canaryRev, s.stableRev)) &&
+      r.w.ro.phase == w.ro.phase && r.w.ro.reason == w.ro.reason && r.requeue && !r.err
+    else true
+  | none => true
+
 def stepOracles (w : World) (r : StepResult) : List (String × Bool) :=
   [("C03.enter_routing_gated", enterRoutingGated w r),
    ("C02.pods_before_next_state", enterRoutingGated w r),
@@ -205,7 +220,10 @@ def stepOracles (w : World) (r : StepResult) : List (String × Bool) :=
    ("C10.bluegreen_refuses_continuous", blueGreenRefusesContinuous w r),
    ("C04.full_step_unpins_first", fullStepUnpinsFirst w r),
    ("C02.no_self_jump", noSelfJump w r),
-   ("C10.reset_routes_first", resetRoutesFirst w r)]
+   ("C10.reset_routes_first", resetRoutesFirst w r),
+   ("C04.inconsistent_waits", inconsistentWaits w r),
+   ("C05.inconsistent_waits", inconsistentWaits w r),
+   ("C02.inconsistent_waits", inconsistentWaits w r)]
 
 end RV.Oracle.RolloutSM
 
